@@ -56,13 +56,17 @@ DEFAULT_SPEC = {
     "chr_naming": 0,       # 1: names with underscores and dots (NC_000067.6, chrUn_KI270, scaffold_12, ...)
     "split_gene": 0,       # 1: a gene whose two isoforms use disjoint exon sets, with another gene nested between them
     "decoy_chr": 0,        # 1: extra chromosome on which every alignment is filtered out (MAPQ 0, unspliced secondary, supplementary)
-    "novel_locus": 0,      # 1: an unannotated multi-exon locus with good coverage on every chromosome (-> novel genes)
+    "novel_locus": 0,      # 1: an unannotated multi-exon locus with good coverage on every chromosome (-> novel genes); 2: with
+                           #    non-canonical (AA..TT) introns
     "pile": 0,             # 1: extra chromosome chrP: (a) >= 1024 short reads of a mono-exonic gene inside one 256-bp coverage bin,
                            #    (b) a > 64 kb island whose second part is deep (> 200 reads in one bin) and ends in a bin covered
                            #    by two reads only, one of them lying entirely inside that last bin
     "ambig_multi": 0,      # N reads with several alignment records whose kept record(s) name one gene but two isoforms:
                            #    even k: read covering only exons shared by two isoforms + a losing 3-exon intergenic secondary;
                            #    odd k: primary = isoform 1, secondary = isoform 2 of the same gene (tie inside one gene)
+    "sq_order": 0,         # 1: the second, third ... file of an experiment lists the @SQ lines in another (rotated) order
+    "bridge": 0,           # k read-through reads: last two exons of one gene + first two exons of the next gene on the chromosome
+    "outside_exon": 0,     # k genes get reads (enough for a model) with an extra exon upstream of the annotated gene span
     "group_tag": "RG",     # BAM tag that carries the group (C09: --read_group tag:<TAG>)
     "twin_chr": 0,         # 1: extra chromosome that is a copy of the first one (same coordinates and strands, own gene ids and reads)
     "novel_gene_overlap": 0,  # k unannotated transcripts inside an annotated gene's span with entirely novel (shifted) introns
@@ -203,6 +207,8 @@ def generate(spec):
             nl.isoforms = [("novel:NL%d:0" % gcount, [0, 1, 2])]
             nl.hidden = True
             nl.no_extra = True
+            if s["novel_locus"] >= 2:
+                nl.noncanon = True      # AA..TT introns: the strand of the novel models rests on polyA/polyT evidence alone
             genes[ci].append(nl)
             layout[ci] = ex[-1][1] + 1200
     flat = [g for cg in genes for g in cg if not getattr(g, "no_extra", False)]
@@ -227,6 +233,11 @@ def generate(spec):
             g.novel.append(cands[rg.randrange(len(cands))])
     for g in [x for x in flat if len(x.exons) >= 2][: s["noncanon"]]:
         g.noncanon = True
+    # reads with an extra exon outside the annotated span of their gene (300 bp before its first exon, canonical sites)
+    for g in [x for x in flat if len(x.exons) >= 2 and not x.noncanon][-s["outside_exon"]:] if s["outside_exon"] else []:
+        a0 = g.exons[0][0]
+        if a0 > 700:
+            g.outside = (a0 - 420, a0 - 260)
     # unannotated transcripts inside an annotated gene whose introns are all novel (every splice site shifted by 14-25 bp)
     for g in [x for x in flat if len(x.exons) >= 3 and not x.noncanon][-s["novel_gene_overlap"]:] if s["novel_gene_overlap"] else []:
         ex = []
@@ -361,6 +372,8 @@ def generate(spec):
             _plant_sites(chroms[cidx[g.chrom]][1], g.exons, g.strand, canonical=not g.noncanon)
             if getattr(g, "shifted", None):
                 _plant_sites(chroms[cidx[g.chrom]][1], g.shifted, g.strand, canonical=True)
+            if getattr(g, "outside", None):
+                _plant_sites(chroms[cidx[g.chrom]][1], [g.outside, g.exons[0]], g.strand, canonical=True)
             # all pairs of exons that may become adjacent through skipping share the same donor/acceptor dinucleotides
     for p in paralogs:
         src = p.paralog_of
@@ -547,6 +560,13 @@ def generate(spec):
                 rid += 1
                 reads.append({"id": "r%04d" % rid, "src": "novel:%s:shifted" % g.gid, "gene": g.gid, "kind": "shifted",
                               "records": [mk_record(g.chrom, g.shifted, g.strand, bool(s["polya"]))]})
+    for g in allgenes:
+        if getattr(g, "outside", None) and g.paralog_of is None and g.gid not in para_of:
+            for k in range(max(4, s["novel_cov"])):
+                rid += 1
+                blocks = [g.outside] + [g.exons[i] for i in g.isoforms[0][1]]
+                reads.append({"id": "r%04d" % rid, "src": "novel:%s:outside" % g.gid, "gene": g.gid, "kind": "outside_exon",
+                              "records": [mk_record(g.chrom, blocks, g.strand, bool(s["polya"]))]})
     if long_genes:
         l1, l2, lb = long_genes
         e1 = l1.exons[-1][1]
@@ -614,6 +634,23 @@ def generate(spec):
                 mk_record(ca, blocks, "+", False, flag_extra=256, with_seq=bool(s["secondary_seq"])),
                 mk_record(cb, blocks, "+", False, flag_extra=256, with_seq=bool(s["secondary_seq"]))]
         reads.append({"id": "r%04d" % rid, "src": "intergenic", "gene": None, "kind": "intergenic_multi", "records": recs})
+    if s["bridge"]:
+        pairs = []
+        for cg in genes:
+            plain = sorted([g for g in cg if g.paralog_of is None and g.gid not in para_of and not getattr(g, "no_extra", False)
+                            and not getattr(g, "annotation_only", False) and getattr(g, "antisense_of", None) is None
+                            and g not in long_genes and g is not pile_gene], key=lambda g: g.span())
+            for ga, gb in zip(plain[:-1], plain[1:]):
+                if ga.span()[1] + 100 < gb.span()[0] and ga.chrom == gb.chrom:
+                    pairs.append((ga, gb))
+        for k in range(s["bridge"]):
+            if not pairs:
+                break
+            ga, gb = pairs[(k * 3) % len(pairs)]
+            blocks = list(ga.exons[-2:]) + list(gb.exons[:2])
+            rid += 1
+            reads.append({"id": "r%04d" % rid, "src": "bridge", "gene": None, "kind": "bridge:%s-%s" % (ga.gid, gb.gid),
+                          "records": [mk_record(ga.chrom, blocks, ga.strand, False)]})
     if s["ambig_multi"]:
         cands = [g for g in allgenes if len(g.isoforms) >= 2 and g.paralog_of is None and g.gid not in para_of
                  and not getattr(g, "no_extra", False) and not getattr(g, "annotation_only", False) and g is not deep
@@ -852,14 +889,19 @@ def build(spec, outdir, gtf_gz=False, write_bams=True):
         for fi, members in enumerate(exp["files"]):
             p = os.path.join(outdir, "%s.f%d.bam" % (exp["name"], fi))
             recs = []
+            # per-file order of the reference sequences in the header (coordinate-sorted with respect to its own header)
+            nsq = len(header["SQ"])
+            rot = fi % nsq if s.get("sq_order") else 0
+            sq_of = {ci_: (ci_ - rot) % nsq for ci_ in range(nsq)}
+            fheader = dict(header, SQ=[header["SQ"][(j + rot) % nsq] for j in range(nsq)])
             for i in members:
                 r = truth["reads"][i]
                 for k, rec in enumerate(r["records"]):
-                    recs.append((cidx[rec["chr"]], rec["pos"], i, k, r, rec))
+                    recs.append((sq_of[cidx[rec["chr"]]], rec["pos"], i, k, r, rec))
             tp = random.Random("%d/tie/%d" % (s["seed"], s["tie_perm"]))
             tiekey = {(i, k): tp.random() for (_, _, i, k, _, _) in recs} if s["tie_perm"] else {}
             recs.sort(key=lambda x: (x[0], x[1], tiekey.get((x[2], x[3]), 0), x[2], x[3]))
-            with pysam.AlignmentFile(p, "wb", header=header) as out:
+            with pysam.AlignmentFile(p, "wb", header=fheader) as out:
                 for ci, pos, i, k, r, rec in recs:
                     a = pysam.AlignedSegment(out.header)
                     a.query_name = read_name(r, s)
